@@ -255,3 +255,104 @@ def let_chain(text: str) -> list[dict] | None:
         else:
             return None
     return None
+
+
+# ------------------------------------------------------------------ plain data (C13)
+class NotData(Exception):
+    """The text is not (only) Nix data: syntax error, interpolation, application, identifier…"""
+
+
+NIX_INT_MAX = 2**63 - 1
+
+
+def _data_of(node: Node, allow_minus: bool):
+    t = node.type
+    if t == "integer_expression":
+        n = int(node.text.decode())
+        if n > NIX_INT_MAX:
+            raise NotData(f"integer literal {n} does not fit Nix's 64-bit integers")
+        return n
+    if t == "float_expression":
+        return float(node.text.decode())
+    if t == "string_expression":
+        s = decode_string_node(node)
+        if s is None:
+            raise NotData("string with interpolation")
+        if any(ch.type == "string_fragment" and b"\r" in ch.text for ch in node.children):
+            # Nix (unescapeStr) normalises a raw CR / CRLF inside a string literal to LF
+            raise NotData("raw carriage return in a string literal (Nix reads it as a line feed)")
+        return s
+    if t == "variable_expression":
+        name = node.text.decode()
+        if name == "true":
+            return True
+        if name == "false":
+            return False
+        if name == "null":
+            return None
+        raise NotData(f"free identifier {name}")
+    if t == "list_expression":
+        return [_data_of(c, False) for c in node.named_children if c.type != "comment"]
+    if t == "attrset_expression":
+        out: dict = {}
+        sets = [c for c in node.named_children if c.type == "binding_set"]
+        for b in (sets[0].named_children if sets else []):
+            if b.type == "comment":
+                continue
+            if b.type != "binding":
+                raise NotData(b.type)
+            ap = b.child_by_field_name("attrpath")
+            attrs = [a for a in ap.named_children if a.type != "comment"]
+            if len(attrs) != 1:
+                raise NotData("dotted attribute path")
+            name = attr_name(attrs[0])
+            if name is None:
+                raise NotData("dynamic attribute name")
+            if name in out:
+                raise NotData(f"duplicate attribute {name}")
+            out[name] = _data_of(b.child_by_field_name("expression"), True)
+        return out
+    if t == "parenthesized_expression":
+        inner = node.child_by_field_name("expression")
+        if inner is None:
+            raise NotData("empty parentheses")
+        return _data_of(inner, True)
+    if t == "unary_expression" and allow_minus:
+        op = node.child_by_field_name("operator")
+        arg = node.child_by_field_name("argument")
+        if op is not None and op.text == b"-" and arg is not None and arg.type in (
+            "integer_expression", "float_expression"
+        ):
+            v = _data_of(arg, False)
+            return -v
+    raise NotData(t)
+
+
+def read_data(text: str):
+    """The Python data a Nix text denotes, read from tree-sitter's CST (no nix_manipulator code).
+
+    int / float / str / bool / None / list / dict; raises NotData for anything that is not plain
+    data or has a syntax error. A minus sign is accepted in front of a number only where the grammar
+    makes it a unary expression (never as a list element: that is a syntax error)."""
+    root = ts_parse(text)
+    if root.has_error or has_missing(root):
+        raise NotData("syntax error")
+    kids = [c for c in root.named_children if c.type != "comment"]
+    if len(kids) != 1:
+        raise NotData("not a single expression")
+    return _data_of(kids[0], True)
+
+
+def same_data(a, b) -> bool:
+    """Typed equality: bool is not int, int is not float, -0.0 is not 0.0, dict order is irrelevant."""
+    if type(a) is not type(b):
+        return False
+    if isinstance(a, float):
+        import math
+
+        return a == b and math.copysign(1.0, a) == math.copysign(1.0, b)
+    if isinstance(a, list):
+        return len(a) == len(b) and all(same_data(x, y) for x, y in zip(a, b))
+    if isinstance(a, dict):
+        return a.keys() == b.keys() and all(same_data(a[k], b[k]) for k in a)
+    return a == b
